@@ -71,14 +71,25 @@ class World:
                 if fd.get('opposite'):
                     oc, on = fd['opposite']
                     byname[(c['name'], fd['name'])].eOpposite = byname[(oc, on)]
+        for c in mm['classes']:
+            for opd in c.get('operations', []):
+                self.classes[c['name']].eOperations.append(
+                    E.EOperation(opd['name'], params=[E.EParameter(p['name'], eType=E.ENativeType, required=p['required'])
+                                                     for p in opd['params']]))
         self.fid = {id(f): i for i, (_, _, f) in enumerate(self.feats)}
         self.pkg = E.EPackage('p', nsURI='http://p', nsPrefix='p')
         self.pkg.eClassifiers.extend(list(self.classes.values()))
         self.pkg.eClassifiers.extend(self.enums)
+        if case.get('render_mixed'):
+            # static classes (MetaEClass) derived from DYNAMIC EClass instances, for the classes that have supertypes
+            from harness import kstatic
+            self.classes = kstatic.static_over_dynamic(mm, self.classes)
         self.objs = [self.classes[cn]() for cn in case['objs']]
         self.oid = {id(o): i for i, o in enumerate(self.objs)}
         self.rset = ResourceSet()
         self.res = [self.rset.create_resource(URI(f'/nonexistent/r{i}.xmi')) for i in range(case.get('nres', 0))]
+        for r in self.res:
+            r.use_uuid = bool(case.get('uuid', False))
         self.rid = {id(r): i for i, r in enumerate(self.res)}
         self.log = []
         if observers:
@@ -105,6 +116,8 @@ class World:
         self.oid = {id(o): i for i, o in enumerate(self.objs)}
         self.rset = ResourceSet()
         self.res = [self.rset.create_resource(URI(f'/nonexistent/r{i}.xmi')) for i in range(case.get('nres', 0))]
+        for r in self.res:
+            r.use_uuid = bool(case.get('uuid', False))
         self.rid = {id(r): i for i, r in enumerate(self.res)}
         self.log = []
         if observers:
@@ -213,11 +226,15 @@ class World:
         if k == 'add':
             c.add(self.val(op[3]))
             return None
+        alias = len(op) > 4 and op[4] == 'alias'     # the argument is the collection itself
         if k in ('extend', 'update'):
-            getattr(c, k)([self.val(v) for v in op[3]])
+            getattr(c, k)(c if alias else [self.val(v) for v in op[3]])
             return None
         if k == 'iadd':
-            c += [self.val(v) for v in op[3]]
+            if alias:
+                c += c
+            else:
+                c += [self.val(v) for v in op[3]]
             return None
         if k == 'insert':
             c.insert(op[3], self.val(op[4]))
